@@ -118,6 +118,14 @@ def ref_bp_fn(p, fmid, span):
 
 # ------------------------------------------------------------------ library side
 
+def _period_arg(p):
+    """The period as the library receives it: seconds as a float, or (input-type stratum) a Quantity in minutes."""
+    if 'period_min' in p:
+        from astropy import units as u
+        return p['period_min'] * u.min
+    return p['period']
+
+
 def build_lib_path(stg, p):
     k = p['kind']
     if k == 'constant':
@@ -125,7 +133,7 @@ def build_lib_path(stg, p):
     if k == 'squared':
         return stg.squared_path(p['f_start'], p['drift'])
     if k == 'sine':
-        return stg.sine_path(p['f_start'], p['drift'], p['period'], p['amplitude'])
+        return stg.sine_path(p['f_start'], p['drift'], _period_arg(p), p['amplitude'])
     if k == 'rfi':
         return stg.simple_rfi_path(p['f_start'], p['drift'], p['spread'], spread_type=p['spread_type'],
                                    rfi_type=p['rfi_type'], seed=p['seed'])
@@ -139,7 +147,7 @@ def build_lib_tprof(stg, p):
     if k == 'constant':
         return stg.constant_t_profile(p['level'])
     if k == 'sine':
-        return stg.sine_t_profile(p['period'], phase=p['phase'], amplitude=p['amplitude'], level=p['level'])
+        return stg.sine_t_profile(_period_arg(p), phase=p['phase'], amplitude=p['amplitude'], level=p['level'])
     if k == 'pgauss':
         return stg.periodic_gaussian_t_profile(p['pulse_width'], p['period'], phase=p['phase'],
                                                pulse_offset_width=p.get('offset_width', 0),
